@@ -271,3 +271,57 @@ def run_daynumbers(R, tu, rule):
     except NotConst as e:
         raise AnalysisBroken("%s: the day-number adders left the foldable fragment (%s)" % (rule, e))
     return n
+
+
+def run_daynumbers_b(R, tu, rule):
+    """business-day additions on day numbers (daisy, Lilian, Matlab -- the representation dseq steps in): dt_dadd_b through the
+    dispatch from every day of a week (both week-end days among them), around a year end and a leap day, counts -12..12 and a few far
+    ones; the result is the number of the n-th Monday-to-Friday day strictly after / before the start and converts to that date"""
+    E = {k: tu.enum_value(k) for k in ("DT_YMD", "DT_DAISY", "DT_LDN", "DT_MDN")}
+    for f in ("dt_dadd_b", "dt_dconv"):
+        if tu.func(f) is None or getattr(tu.func(f), "body", None) is None:
+            raise AnalysisBroken("%s: %s vanished" % (rule, f))
+        R.saw(tu.func(f))
+    tabs = {}
+
+    def mk(name):
+        fo = fold.Folder(tu.func(name), calls={}, inline=True, max_steps=600000)
+        fo._tabs = tabs
+        return fo
+    n = 0
+    starts = [datetime.date(2012, 5, 7) + datetime.timedelta(days=i) for i in range(7)] + \
+             [datetime.date(1999, 12, 27) + datetime.timedelta(days=i) for i in range(9)] + \
+             [datetime.date(2024, 2, 24) + datetime.timedelta(days=i) for i in range(8)] + [datetime.date(3899, 6, 14)]
+    counts = list(range(-12, 13)) + [-261, -100, -26, 25, 100, 261, 1305]
+    try:
+        for tag, mem in (("DT_DAISY", "daisy"), ("DT_LDN", "ldn"), ("DT_MDN", "mdn")):
+            bad = []
+            for d in starts:
+                src = mk("dt_dconv").run([E[tag], {"typ": E["DT_YMD"], "ymd.y": d.year, "ymd.m": d.month, "ymd.d": d.day}])
+                v0 = src.get(mem) if isinstance(src, dict) else None
+                if not isinstance(v0, int) or v0 <= 0:
+                    raise AnalysisBroken("%s: %s of %s not decoded" % (rule, tag, d))
+                for c in counts:
+                    n += 1
+                    e = _bstep(d, c)
+                    try:
+                        r = mk("dt_dadd_b").run([dict(src), c])
+                        got = r.get(mem) if isinstance(r, dict) else None
+                        back = mk("dt_dconv").run([E["DT_YMD"], dict(r)]) if isinstance(r, dict) else {}
+                        gd = (back.get("ymd.y"), back.get("ymd.m"), back.get("ymd.d"))
+                    except fold.Abort as ex:
+                        got, gd = "abort: %s" % ex, None
+                    if got != v0 + (e - d).days or gd != (e.year, e.month, e.day):
+                        bad.append((d, c, gd, e))
+            if bad:
+                d, c, gd, e = bad[0]
+                R.finding(rule, tu.func("dt_dadd_b"), "business days on day numbers held as %s" % tag,
+                          "%d (start, count) points differ; first: %s (%s) as %s with %+db gives %s, the %s Monday-to-Friday day %s is %s" %
+                          (len(bad), d.isoformat(), d.strftime("%a"), tag, c, "%04d-%02d-%02d" % gd if gd and None not in gd else gd,
+                           "%d%s" % (abs(c), "th"), "after" if c > 0 else "before", e.isoformat()))
+            else:
+                R.ob(rule, "dt_dadd_b on %s day numbers: %d starts (every day of the week, a year end, a leap day) x %d counts give the n-th "
+                     "Monday-to-Friday day after / before the start" % (tag, len(starts), len(counts)), True)
+    except NotConst as e:
+        raise AnalysisBroken("%s: the business-day adder on day numbers left the foldable fragment (%s)" % (rule, e))
+    return n
